@@ -9,20 +9,28 @@
    X/Y being the very span at the current offset (l = X e ++ l'), the elements of an Emit being
    equivalent position by position to the span of rhs.  [expand lhs es] reads the empty script
    as the single Emit of all of lhs (the documented convention).  [kept] counts emitted
-   elements.  All theorems hold for every element type and every equivalence eqb. *)
+   elements; [cost] = removed + inserted elements.  [Exec eqb l r es] is the most general
+   reading of a script: ANY sequence of Emit/Drop/Copy/Replace edits that consumes l and
+   produces r (not necessarily canonical, unused fields ignored); [Valid] => [Exec].
+   [edit_script_run_cap eqb lx rx lhs rhs] is the same model run on inputs whose backing arrays
+   continue with lx / rx beyond their lengths (Go checks slice bounds against cap, not len);
+   [edit_script_run] is the instance without spare capacity.  All theorems hold for every
+   element type and every equivalence eqb. *)
 From Coq Require Import ZArith List Bool PeanoNat.
 Import ListNotations.
-From Mds Require Import Slice.Subseq Slice.LcsModel Slice.EditModel Slice.EditSpecProofs
-     Slice.EditProofs Slice.EditTheorems.
+From Mds Require Import Gen.EditIdx Slice.Subseq Slice.LcsModel Slice.EditModel Slice.EditSpecProofs
+     Slice.EditProofs Slice.EditCapProofs Slice.EditTheorems.
 
 (* ---- the whole property in one statement ------------------------------------------------ *)
 
 (* For all lhs rhs: LCSFunc returns some L, a common subsequence (up to eqb) that no common
    subsequence exceeds in length (C12); editScriptFunc returns normally (no index / slice
-   bound out of range, no loop out of fuel) some es; es is valid; it keeps exactly |L|
-   elements, and no valid script keeps more; it is canonical (no empty edit, adjacent edits
-   differ in kind, no Drop next to a Copy) and moreover Emit / non-Emit edits strictly
-   alternate; and it is empty exactly when lhs and rhs are equal under eqb. *)
+   bound out of range, no loop out of fuel) some es -- the same es whatever the spare capacity
+   of the two inputs holds; es is valid; it keeps exactly |L| elements, and no executable script
+   whatsoever (any sequence of edits consuming lhs and producing rhs) keeps more or changes
+   fewer elements; it is canonical (no empty edit, adjacent edits differ in kind, no Drop next
+   to a Copy) and moreover Emit / non-Emit edits strictly alternate; and it is empty exactly
+   when lhs and rhs are equal under eqb. *)
 Theorem C11_edit_script :
   forall (T : Type) (eqb : T -> T -> bool),
     (forall x, eqb x x = true) ->
@@ -33,13 +41,15 @@ Theorem C11_edit_script :
       lcs_func T eqb lhs rhs = Some L /\
       CommonSubseq eqb L lhs rhs /\
       (forall t, CommonSubseq eqb t lhs rhs -> (length t <= length L)%nat) /\
-      edit_script_run eqb lhs rhs = EOk es /\
+      (forall lx rx, edit_script_run_cap eqb lx rx lhs rhs = EOk es) /\
       ValidScript eqb lhs rhs es /\
       kept (expand lhs es) = length L /\
-      (forall es', Valid eqb lhs rhs es' -> (kept es' <= kept (expand lhs es))%nat) /\
+      (forall es', Exec eqb lhs rhs es' ->
+                   (kept es' <= kept (expand lhs es))%nat /\
+                   (cost (expand lhs es) <= cost es')%nat) /\
       canonical es = true /\ alternating es = true /\
       (es = [] <-> EqLists eqb lhs rhs).
-Proof. exact edit_script_run_spec. Qed.
+Proof. exact edit_script_full_spec. Qed.
 Print Assumptions C11_edit_script.
 
 (* the hypotheses are satisfiable, on a non-trivial instance: an equivalence that is not
@@ -53,7 +63,8 @@ Lemma key_trans : forall x y z, key_eqb x y = true -> key_eqb y z = true -> key_
 Proof. unfold key_eqb. intros x y z H1 H2. apply Nat.eqb_eq in H1. now rewrite H1. Qed.
 
 Example C11_edit_script_ex :
-  edit_script_run key_eqb [(1,0); (2,0); (1,1); (3,0); (1,2)] [(1,7); (1,8); (4,7); (1,9); (2,7)]
+  edit_script_run_cap key_eqb [(9,9); (9,9)] [(1,3)]
+    [(1,0); (2,0); (1,1); (3,0); (1,2)] [(1,7); (1,8); (4,7); (1,9); (2,7)]
   = EOk [mkEdit Emit [(1,0)] []; mkEdit Drop [(2,0)] []; mkEdit Emit [(1,1)] [];
          mkEdit Replace [(3,0)] [(4,7)]; mkEdit Emit [(1,2)] []; mkEdit Copy [] [(2,7)]].
 Proof. vm_compute. reflexivity. Qed.
@@ -73,6 +84,42 @@ Print Assumptions C11_no_panic.
 (* the precondition matters: under an irreflexive relation the real code (and the model)
    index out of range *)
 Example C11_no_panic_ex : edit_script_run Nat.ltb [0] [1; 1] = EPanic.
+Proof. vm_compute. reflexivity. Qed.
+
+(* Capacity (Go checks the bounds of s[lo:hi] against cap(s)).  For ANY eq function, lawful or
+   not: if the run on inputs without spare capacity returns normally, the run on the same
+   inputs with any spare capacity lx, rx returns the same -- a slice expression that passes the
+   stricter check against len never reaches what lies behind the slice. *)
+Theorem C11_capacity_monotone :
+  forall (T : Type) (eqb : T -> T -> bool) lx rx lhs rhs es,
+    edit_script_run eqb lhs rhs = EOk es -> edit_script_run_cap eqb lx rx lhs rhs = EOk es.
+Proof. exact edit_script_run_cap_mono. Qed.
+Print Assumptions C11_capacity_monotone.
+
+(* not vacuous outside the precondition either: under <= (not symmetric) the code returns
+   normally, with or without spare capacity; under < (irreflexive) a re-matching loop indexes
+   past len and panics however large cap is (an index is checked against len) *)
+Example C11_capacity_monotone_ex :
+  edit_script_run Nat.leb [1; 0; 3] [0; 1; 2] = EOk [mkEdit Emit [1; 0] []; mkEdit Replace [3] [2]] /\
+  edit_script_run_cap Nat.leb [9; 9; 9] [8; 8] [1; 0; 3] [0; 1; 2]
+    = EOk [mkEdit Emit [1; 0] []; mkEdit Replace [3] [2]] /\
+  edit_script_run_cap Nat.ltb [9; 9; 9] [9; 9; 9] [0] [1; 1] = EPanic.
+Proof. vm_compute. auto. Qed.
+
+(* for an equivalence: whatever the spare capacity holds, the script of the theorems below *)
+Theorem C11_any_capacity :
+  forall (T : Type) (eqb : T -> T -> bool),
+    (forall x, eqb x x = true) ->
+    (forall x y, eqb x y = true -> eqb y x = true) ->
+    (forall x y z, eqb x y = true -> eqb y z = true -> eqb x z = true) ->
+    forall lx rx lhs rhs,
+      edit_script_run_cap eqb lx rx lhs rhs = EOk (edit_script_func eqb lhs rhs).
+Proof. exact edit_script_run_cap_indep. Qed.
+Print Assumptions C11_any_capacity.
+
+Example C11_any_capacity_ex :
+  edit_script_run_cap Nat.eqb [2; 3] [3] [0; 1; 2] [0; 2; 3] =
+  EOk [mkEdit Emit [0] []; mkEdit Drop [1] []; mkEdit Emit [2] []; mkEdit Copy [] [3]].
 Proof. vm_compute. reflexivity. Qed.
 
 (* executing the edits consumes lhs and produces rhs, X/Y the spans at the current offsets *)
@@ -148,6 +195,54 @@ Example C11_minimal_ex :
   kept (expand [0; 1; 0; 1] (edit_script_func Nat.eqb [0; 1; 0; 1] [1; 0; 1; 0])) = 3.
 Proof. vm_compute. reflexivity. Qed.
 
+(* the same against the most general class of scripts: ANY sequence of Emit / Drop / Copy /
+   Replace edits that consumes lhs and produces rhs -- canonical or not, with empty edits,
+   unfused Drop+Copy, adjacent edits of one kind, whatever the unused fields hold *)
+Theorem C11_minimal_general :
+  forall (T : Type) (eqb : T -> T -> bool),
+    (forall x, eqb x x = true) ->
+    (forall x y, eqb x y = true -> eqb y x = true) ->
+    (forall x y z, eqb x y = true -> eqb y z = true -> eqb x z = true) ->
+    forall lhs rhs es',
+      Exec eqb lhs rhs es' ->
+      (kept es' <= kept (expand lhs (edit_script_func eqb lhs rhs)))%nat.
+Proof. exact edit_script_minimal_exec. Qed.
+Print Assumptions C11_minimal_general.
+
+(* Exec accepts non-canonical scripts that Valid / canonical reject *)
+Example C11_minimal_general_ex :
+  let es' := [mkEdit Drop [] [9]; mkEdit Emit [1] []; mkEdit Drop [2] []; mkEdit Drop [3] [];
+              mkEdit Copy [7] [4]; mkEdit Copy [] []; mkEdit Emit [5] [8]] in
+  Exec Nat.eqb [1; 2; 3; 5] [1; 4; 5] es' /\ canonical es' = false /\
+  valid_edits Nat.eqb [1; 2; 3; 5] [1; 4; 5] es' = false /\
+  kept es' = 2%nat /\ kept (expand [1; 2; 3; 5] (edit_script_func Nat.eqb [1; 2; 3; 5] [1; 4; 5])) = 2%nat.
+Proof.
+  cbv zeta. split; [|vm_compute; auto].
+  cbn. exists [1; 2; 3; 5]. split; [reflexivity|].
+  exists [2; 3; 5], [1], [4; 5]. repeat split; [repeat constructor|].
+  exists [3; 5]. split; [reflexivity|]. exists [5]. split; [reflexivity|].
+  exists [5]. split; [reflexivity|]. exists [5]. split; [reflexivity|].
+  exists [], [5], []. repeat split. repeat constructor.
+Qed.
+
+(* "so no shorter script exists", as the size of the change: no executable script removes +
+   inserts fewer elements (cost = |lhs| + |rhs| - 2 kept for every executable script) *)
+Theorem C11_least_cost :
+  forall (T : Type) (eqb : T -> T -> bool),
+    (forall x, eqb x x = true) ->
+    (forall x y, eqb x y = true -> eqb y x = true) ->
+    (forall x y z, eqb x y = true -> eqb y z = true -> eqb x z = true) ->
+    forall lhs rhs es',
+      Exec eqb lhs rhs es' ->
+      (cost (expand lhs (edit_script_func eqb lhs rhs)) <= cost es')%nat.
+Proof. exact edit_script_least_cost. Qed.
+Print Assumptions C11_least_cost.
+
+Example C11_least_cost_ex :
+  cost (expand [0; 1; 0; 1] (edit_script_func Nat.eqb [0; 1; 0; 1] [1; 0; 1; 0])) = 2%nat /\
+  cost [mkEdit Replace [0; 1; 0; 1] [1; 0; 1; 0]] = 8%nat.
+Proof. vm_compute. auto. Qed.
+
 (* canonical form *)
 Theorem C11_canonical :
   forall (T : Type) (eqb : T -> T -> bool),
@@ -190,6 +285,17 @@ Example C11_empty_iff_ex :
   edit_script_func Nat.eqb [1; 2] [1; 2; 2] <> [].
 Proof. split; vm_compute; [reflexivity | discriminate]. Qed.
 
+(* the public EditScript passes equal(a, b) = (a == b), read off the source (Gen: es_equal, on
+   machine ints): it decides equality, the hypothesis of the two _exact / _eq theorems *)
+Theorem C11_public_eq_is_equality : forall a b, es_equal a b = true <-> a = b.
+Proof. exact es_equal_decides. Qed.
+Print Assumptions C11_public_eq_is_equality.
+
+Example C11_public_eq_is_equality_ex :
+  edit_script_func es_equal [1; 2; 3]%Z [1; 3; 4]%Z
+  = [mkEdit Emit [1]%Z []; mkEdit Drop [2]%Z []; mkEdit Emit [3]%Z []; mkEdit Copy [] [4]%Z].
+Proof. vm_compute. reflexivity. Qed.
+
 (* ---- about the specification and the checker --------------------------------------------- *)
 
 (* The executable checker the driver runs on the implementation's output decides [Valid],
@@ -216,6 +322,19 @@ Theorem C11_valid_script_common_subseq :
     exists c, length c = kept es /\ Subseq c l /\ SubseqB eqb c r.
 Proof. exact Valid_common_subseq. Qed.
 Print Assumptions C11_valid_script_common_subseq.
+
+(* Valid is Exec with the unused fields empty: every Valid script is executable ... *)
+Theorem C11_valid_is_exec :
+  forall (T : Type) (eqb : T -> T -> bool) es l r, Valid eqb l r es -> Exec eqb l r es.
+Proof. exact Valid_Exec. Qed.
+Print Assumptions C11_valid_is_exec.
+
+(* ... and every executable script changes |l| + |r| - 2 kept elements *)
+Theorem C11_exec_cost :
+  forall (T : Type) (eqb : T -> T -> bool) es l r,
+    Exec eqb l r es -> (cost es + 2 * kept es = length l + length r)%nat.
+Proof. exact Exec_cost. Qed.
+Print Assumptions C11_exec_cost.
 
 (* valid scripts compose (used by the mdiff slice, C13) *)
 Theorem C11_valid_app :
